@@ -58,6 +58,21 @@ def check(repo: Repo, rep: Report) -> None:
     rep.rule("K3-synchronous", "no scheduler in element-wise operators", floor=18)
     rep.rule("K4-composites", "composite operators are built from their documented components", floor=4)
     rep.rule("G1-state-before-callout", "gate state (counters / flags deciding an emission) is updated before the downstream on_next it gates", floor=4)
+    rep.rule("P1-predicate-truthiness", "no result of a user predicate / comparer is compared with True / False by identity or equality (truthiness is the contract)", floor=1)
+    bad_bool = []
+    n_mod = 0
+    for rel_, m_ in sorted(repo.modules.items()):
+        if not rel_.startswith(("reactivex/operators/", "reactivex/observable/")):
+            continue
+        n_mod += 1
+        for n_ in ast.walk(m_.tree):
+            if isinstance(n_, ast.Compare) and len(n_.ops) == 1 and isinstance(n_.ops[0], (ast.Is, ast.IsNot, ast.Eq, ast.NotEq)):
+                for x_ in (n_.left, n_.comparators[0]):
+                    if isinstance(x_, ast.Constant) and (x_.value is True or x_.value is False):
+                        bad_bool.append(f"{rel_}:{short(n_, 40)}")
+    rep.ob("P1-predicate-truthiness", "reactivex/operators/_filter.py::filter_", f"{n_mod} operator / source modules: comparisons with True / False: {bad_bool or 'none'}", not bad_bool,
+           f"a boolean decision is made by comparing with True / False ({'; '.join(bad_bool)}): a predicate that returns a truthy non-bool (x % 2, a "
+           f"match object, `x and 'yes'`) is treated as false — filter / first / count / some select different elements from the list semantics")
     rep.rule("D2-default-equality", "the default comparer is the elements' own == and nothing else", floor=1)
     dc = repo.fn("reactivex/internal/basic.py", "default_comparer")
     cmps = [n for n in dc.all_nodes() if isinstance(n, ast.Compare)]
